@@ -294,6 +294,15 @@ def _history(name, regime, steps, tier):
         warnings.filterwarnings("ignore")
         xmlrt.REGIME[0] = regime
         sc, pps, _check, loc = xmlrt.build(HistoryOnly(V), name)
+        if not pps.planning_problem_dict:
+            # write_to_file and write_scenario_to_file must differ in content: every history scenario has a planning problem
+            from commonroad.common.util import Interval
+            from commonroad.planning.goal import GoalRegion
+            from commonroad.planning.planning_problem import PlanningProblem
+            from commonroad.scenario import state as st_
+
+            # (all float leaves symbolic: a concrete float would be cut with a symbolic precision, which forks over its 12 values)
+            pps.add_planning_problem(PlanningProblem(999, xmlrt.initial_state(V, "pp_init", 0), GoalRegion([st_.CustomState(time_step=Interval(1, 5))])))
         pb_expressible = not name.endswith(".KST")
         prec = {"A": V.int("precision_A", 1, 12), "B": V.int("precision_B", 1, 12)}
         world = World(V, sc, pps, loc)
